@@ -915,7 +915,7 @@ def run(ctx):
         "construction (star-shaped bodies: normal vs centre; torus: signed volume), field of the truth-wound body "
         "computed with all checks and the reorientation skipped",
     ]
-    ctx.partial += ["C16_propagation_consistent_partial", "C16_propagation_step_partial"]
+    ctx.partial += ["C16_seed_bit_determines_partial"]
     built = ctx.build_props()
     if ctx.tier == "thorough" and built:
         with Lock():     # a concurrent run of this check rebuilds Props/C16.vo under the same lock
